@@ -4,3 +4,4 @@ pub mod xref;
 pub mod src;
 pub mod vf;
 pub mod summary;
+pub mod draw;
